@@ -36,6 +36,23 @@ class Obj(object):
         return '<Obj %s>' % self.__dict__['_name']
 
 
+def class_obj(mod, cname, name='cls'):
+    """An object standing for the class `cname` of a source module (or an instance of it): its methods are callable from evaluated code
+    (`self.helper(..)`); helpers wrapped by `name = staticmethod(name)` in the class body are called unbound."""
+    import ast as _ast
+    o = Obj(name)
+    o.__dict__['_methods'] = dict(mod.methods(cname))
+    static = set()
+    for st in mod.cls(cname).body:
+        if isinstance(st, _ast.Assign) and len(st.targets) == 1 and isinstance(st.targets[0], _ast.Name) and isinstance(st.value, _ast.Call) \
+                and isinstance(st.value.func, _ast.Name) and st.value.func.id == 'staticmethod':
+            static.add(st.targets[0].id)
+        if isinstance(st, _ast.FunctionDef) and any(isinstance(d, _ast.Name) and d.id == 'staticmethod' for d in st.decorator_list):
+            static.add(st.name)
+    o.__dict__['_static'] = static
+    return o
+
+
 class Native(object):
     """A checker-side function bound to a name of the analysed code (model of a constructor, isinstance, ...)."""
 
@@ -312,7 +329,12 @@ class Evaluator(object):
 
     def ev_Call(self, n, loc):
         f = n.func
-        args = [self.ev(a, loc) for a in n.args]
+        args = []
+        for a in n.args:
+            if isinstance(a, ast.Starred):
+                args.extend(list(self.ev(a.value, loc)))
+            else:
+                args.append(self.ev(a, loc))
         kw = dict((k.arg, self.ev(k.value, loc)) for k in n.keywords)
         if isinstance(f, ast.Name) and f.id in PURE_BUILTINS and f.id not in loc and f.id not in self.env:
             fn = PURE_BUILTINS[f.id]
@@ -356,10 +378,14 @@ class Evaluator(object):
                 return tgt.fn(*args, **kw)
             if isinstance(tgt, ast.FunctionDef):
                 return self.call_user(tgt, args, kw)
+            if isinstance(tgt, type) and issubclass(tgt, Obj):
+                return tgt(*args, **kw)                # a model class of the checker (usable with isinstance and as constructor)
         if isinstance(f, ast.Attribute):
             recv = self.ev(f.value, loc)
             if isinstance(recv, Obj) and f.attr in recv.__dict__.get('_methods', {}):
                 fn_ = recv.__dict__['_methods'][f.attr]
+                if f.attr in recv.__dict__.get('_static', ()):
+                    return self.call_user(fn_, args, kw)           # name = staticmethod(name): not bound
                 if recv.__dict__.get('_isclass') and f.attr not in recv.__dict__.get('_meta_methods', ()) \
                         and not any(isinstance(d, ast.Name) and d.id in ('classmethod', 'staticmethod') for d in fn_.decorator_list):
                     # Class.method(instance, ...): a plain function looked up on the class is not bound
@@ -606,6 +632,9 @@ def build_instance(mod, cname, name=None):
 def module_env(mod, base_env=None, skip=()):
     """Evaluate module-level assignments that are constant-evaluable; others are left unbound."""
     env = dict(base_env or {})
+    # module-level functions are callable from module-level statements (a table built by a small builder function)
+    for fname_, fnode_ in getattr(mod, 'funcs', {}).items():
+        env.setdefault(fname_, fnode_)
     ev = Evaluator(env)
     skipped = []
     stmts = [s for s in mod.toplevel() if isinstance(s, (ast.Assign, ast.AugAssign, ast.For))]
